@@ -7,7 +7,7 @@
 From Coq Require Import List String Bool Permutation.
 From Coq Require Import Floats.PrimFloat.
 From PAFC01 Require Import ModelTree Model Proofs2 Proofs3.
-From PAFC08 Require Import Model Lib Proofs1 Proofs2 Proofs3 Proofs4 Proofs5 Witness.
+From PAFC08 Require Import Model Lib Proofs1 Proofs2 Proofs3 Proofs4 Proofs5 Proofs6 Witness.
 Import ListNotations.
 
 (* ---- one round trip (any of the three forms) succeeds and yields an equivalent model; PARTIAL: under
@@ -127,6 +127,15 @@ Theorem C08_db_arith : forall (V : Type) (cf : cfg) (bin : binop -> V -> V -> V)
              inst_from_vector V bin (tree V n') vec = inst_from_vector V bin (tree V n) vec.
 Proof. exact db_arith. Qed.
 
+(* models WITH arithmetic priors through dict/JSON: the reload succeeds, renames the parameters injectively,
+   keeps their number, and builds the same instance from every assignment of values to parameters *)
+Theorem C08_dict_arith : forall (V : Type) (bin : binop -> V -> V -> V) (falsy : V -> bool) (cf : cfg) (n : snode V),
+  forall_nodes V (dict_node_ok2 V falsy cf) n = true -> all_occs V (occ_ok V cf) n = true -> wf V (tree V n) ->
+  exists n' s, dict_rt V falsy cf n = Ok n' /\ inj_on s (node_ids V n) /\
+               prior_count V (tree V n') = prior_count V (tree V n) /\
+               forall a : nat -> option V, inst V bin a (tree V n') = inst V bin (fun q => a (s q)) (tree V n).
+Proof. exact dict_arith. Qed.
+
 (* ---- the full statement is refuted on the faithful model of the pinned code ---- *)
 Theorem C08_db_refuted :
   exists n n', consistent float n /\ db_rt float cfg_pinned n = Ok n' /\
@@ -181,3 +190,4 @@ Print Assumptions C08_instance.
 Print Assumptions C08_db_refuted.
 Print Assumptions C08_dict_image.
 Print Assumptions C08_db_arith.
+Print Assumptions C08_dict_arith.
